@@ -590,3 +590,24 @@ def verdict(ctx, attr: str) -> Tuple[str, str]:
             return "refuted", f"for rows={rows}, columns={columns}, virtual_rows={vr} the constructor's `{attr}` is {str(v)[:80]}; the property requires {str(want)[:80]}"
         n += 1
     return "holds", f"`{attr}` equals the prescribed table for all {n} geometries of the evaluation table (bounded argument)"
+
+
+def run_function(f, params: Dict[str, Any]) -> Tuple[str, Any]:
+    """Interpret a (helper-expanded) function body for concrete arguments: ('return', value) | ('raise', None) | ('unknown', why).
+    Raising guards whose test is UNKNOWN are assumed to pass, so 'raise' means: a guard that could be evaluated rejected the call."""
+    selfn = f.params[0] if f.cls is not None and f.params else "§noself"
+    env = dict(params)
+    for p in f.params:
+        if p not in env and p != selfn:
+            d = f.param_default(p)
+            env[p] = d.value if isinstance(d, ast.Constant) else UNK
+    it = Interp(selfn, env)
+    try:
+        it.block(list(f.node.body))
+    except _Signal as s:
+        if s.kind == "return":
+            return "return", s.value
+        if s.kind == "raise":
+            return "raise", None
+        return "unknown", s.kind
+    return "return", None
